@@ -69,6 +69,8 @@ def gen_seq(rng, maxops=30, allow_fill=True):
             c = rng.choice(["-", "-", "-", "F", "T"]) if rng.random() < 0.3 else "-"
             acc = "1" if (rng.random() < 0.05 and v == "-" and w == "-") else "0"
             ops.append("DL %s %s %s %s %s" % (v, w, e, c, acc))
+        elif x < 0.915:
+            ops.append("POP")
         elif x < 0.93:
             ops.append("F")
         elif x < 0.96:
@@ -310,6 +312,10 @@ def report_seq_problem(ctx, env, p):
     impl = run_one(ctx, env.harness, line)
     model = run_one(ctx, env.model, line) if env.model else None
     sig = "%s:%s" % (kind, op_shape(small))
+    if kind in ("inv", "export") and "POP" in small:
+        without = [o for o in small if o != "POP"]
+        if not fails(without):
+            sig = "pop-fastpath-objCount-not-decremented"
     what = {"corr": "implementation differs from the (spec-refining) model", "twin": "storage switch is observable: twin differs from original",
             "export": "Go export differs from the generic element read", "inv": "bookkeeping invariant broken (fast paths unsound)",
             "impl-error": "harness error / panic"}.get(kind, kind)
